@@ -21,6 +21,12 @@ CHECKS = {
  "C20": ("model_checking", "exhaustive reflection over every exported type x zero receivers x argument-free methods, plus explicit-state exploration of partial values: every (base, cut point, parser) triple's returned-with-error value x every argument-free method",
          "The type list is regenerated from /repo's AST at every run, so new types/methods are included automatically; partial values are produced by truncating every base at every field boundary (thorough: every offset).",
          "nil pointers returned with an error are not called through; mutating methods excluded."),
+ "C05": ("model_checking", "E1 over signed model structures x exhaustive adversarial derivations (forgery constructions, full structure-aware operator menu, a bit flip in every byte); every trace is executed by the real parser+verifier and judged by an independent verifier over the received bytes",
+         "For every signed base within the deviation bound, every derivation in the menu is produced and run through the library; whenever the library reports success the independent VerifyRaw must agree. Positive controls are counted (vacuity is visible).",
+         "Assumes unforgeability of the primitives: decides the verification logic (which key, which bytes, which prefix, authorisation of transient keys), not cryptanalysis."),
+ "C06": ("model_checking", "E1 over constructor argument tuples (model values within the deviation bound, all private-key representations, all insertion orders of option sets) driven through the real signing constructors; four-step oracle incl. an independent verifier",
+         "Every value the signing constructors build in the bounded argument space must verify, survive Bytes()+parse with empty remainder, verify again, and be accepted by the independent verifier.",
+         "Known findings: ECDSA keys cannot be verified by go-i2p/crypto (third party); LEASESET2_MIN_SIZE."),
  "C07": ("model_checking", "E1 over the identity generator x every API path x every single-byte variant (all positions), against SHA-256 / independent base32+base64 codecs",
          "Every identity within the deviation bound through 8 API paths; for each, every byte position is modified (two values) and hash/address/equality re-evaluated. Exhaustive over positions and paths for the enumerated identities.",
          "SHA-256 from the standard library; base codecs from refmodel."),
